@@ -111,6 +111,7 @@ func newC10Sys(cfg drv.Config, maxD int) (*c10Sys, error) {
 				c10Op{kind: "copy-to", bucket: bn, key: k},
 				c10Op{kind: "copy-from", bucket: bn, key: k},
 				c10Op{kind: "multi", bucket: bn, key: k},
+				c10Op{kind: "form", bucket: bn, key: k},
 			)
 		}
 		s.ops = append(s.ops, c10Op{kind: "list", bucket: bn, key: "", read: true}, c10Op{kind: "list", bucket: bn, key: "../", read: true},
@@ -275,12 +276,16 @@ func (s *c10Sys) Apply(op engine.Op) (string, *engine.Violation) {
 	case "head":
 		r = s.w.Do(drv.Req{Method: "HEAD", Path: "/" + o.bucket + "/" + o.key})
 	case "copy-to":
-		r = s.w.Do(drv.Req{Method: "PUT", Path: "/" + o.bucket + "/" + o.key, Header: drv.H("X-Amz-Copy-Source", "/aaa/x")})
+		// the copy carries metadata of its own: the source must keep what it has
+		r = s.w.Do(drv.Req{Method: "PUT", Path: "/" + o.bucket + "/" + o.key, Header: drv.H("X-Amz-Copy-Source", "/aaa/x", "x-amz-meta-base", "from-the-copy-request", "Content-Type", "text/x-copy", "x-amz-metadata-directive", "REPLACE")})
 	case "copy-from":
 		r = s.w.Do(drv.Req{Method: "PUT", Path: "/aaa/copied", Header: drv.H("X-Amz-Copy-Source", "/"+o.bucket+"/"+strings.ReplaceAll(o.key, "%", "%25"))})
 		target = "copied"
 	case "multi":
 		r = s.w.Do(drv.Req{Method: "POST", Path: "/" + o.bucket, Query: "delete", Body: multiDeleteBody([]string{o.key}, false)})
+	case "form":
+		fb, ct := formBody(o.key, body, nil)
+		r = s.w.Do(drv.Req{Method: "POST", Path: "/" + o.bucket, Header: drv.H("Content-Type", ct), Body: fb})
 	case "list":
 		q := ""
 		if o.key != "" {
@@ -466,7 +471,7 @@ func (s *c10Sys) Check() ([]*engine.Violation, int64) {
 }
 
 func runC10(c *engine.Ctx) {
-	c.Rule = "state = full-store snapshot (every bucket, listing, body, ETag) + raw storage dump of a populated two-bucket store; transition = one operation (put/get/head/delete/multi-delete/copy to/copy from/list/create-bucket/delete-bucket, and as a first step list-parts/upload-part/complete/abort presenting the upload id of a pending upload of another key) addressed to a hostile key or bucket name; oracle = framing: only entries of the addressed bucket whose canonical key equals the addressed key may change, nothing else changes, every bucket still lists, non-bucket names never answer with success, storage changes stay under the addressed bucket's directories; distinct_nontrivial = distinct canonical states"
+	c.Rule = "state = full-store snapshot (every bucket, listing, body, ETag) + raw storage dump of a populated two-bucket store; transition = one operation (put/browser-form upload/get/head/delete/multi-delete/copy to (with metadata of its own)/copy from/list/create-bucket/delete-bucket, and as a first step list-parts/upload-part/complete/abort presenting the upload id of a pending upload of another key) addressed to a hostile key or bucket name; oracle = framing: only entries of the addressed bucket whose canonical key equals the addressed key may change, nothing else changes, every bucket still lists, non-bucket names never answer with success, storage changes stay under the addressed bucket's directories; distinct_nontrivial = distinct canonical states"
 	c.Assumptions = append(c.Assumptions, "fs backends may refuse any hostile key if nothing changes; aliasing of keys inside the addressed bucket via path cleaning is the fs key domain, not interference", "sequences of <= 2 hostile operations (thorough: <= 3 with the third restricted to reads/deletes)")
 	kinds := drv.MemFsKinds
 	maxD := 2
